@@ -320,6 +320,31 @@ def r11a_analyze_then_publish(ctx):
         from .. import roles
         pubs = roles.diagnostics_publishers(ctx)
         pub = [bb for bb, c in h.calls() if c.get("res_local") and c.get("res") in pubs]
+        combined = set()
+        # an async helper that itself analyses and then always publishes for the same document (`analyze_and_publish`) is both
+        # steps at once: its coroutine body is checked with the same obligations
+        for bb, c in h.calls():
+            k = crate.fns.get(c.get("res")) if c.get("res_local") else None
+            body = crate.fns.get("%s::{closure#0}" % c["res"]) if k is not None else None
+            if body is None or body.kind != "coroutine" or bb in pub:
+                continue
+            a2 = [b2 for b2, c2 in body.calls() if c2.get("res_local") and entry is not None and entry.id in db.cg.reach([c2["res"]])]
+            p2 = [b2 for b2, c2 in body.calls() if c2.get("res_local") and c2.get("res") in pubs]
+            if not a2 or not p2:
+                continue
+            bd, bp = body.dominators(), body.postdominators()
+            if all(any(x in bd.get(y, set()) for x in a2) for y in p2) and all(any(y in bp.get(x, set()) for y in p2) for x in a2) \
+                    and _skips_analysis_on_bool(body, set(a2)) is None \
+                    and all({_root(body, x) for x in body.blocks[x_]["t"][1]["args"]} & {_root(body, y) for y in body.blocks[y_]["t"][1]["args"]}
+                            for x_ in a2 for y_ in p2):
+                # the call that builds the future and the polls of it are the same step
+                for b3, c3 in h.calls():
+                    if c3.get("res") in (k.id, body.id):
+                        combined.add(b3)
+                        if b3 not in ana:
+                            ana.append(b3)
+                        if b3 not in pub:
+                            pub.append(b3)
         n += 1
         key = "R11a|%s" % h.id
         if not ana:
@@ -348,6 +373,8 @@ def r11a_analyze_then_publish(ctx):
             for p in pub:
                 cp = h.blocks[p]["t"][1]
                 for a in ana:
+                    if a in combined and p in combined:
+                        continue  # same document checked inside the helper
                     ca = h.blocks[a]["t"][1]
                     ra = {_root(h, x) for x in ca["args"]}
                     rp = {_root(h, x) for x in cp["args"]}
@@ -903,7 +930,12 @@ def r11e_report_root_is_scan_root(ctx):
                        "canonical, a report rooted at another spelling of the directory (symlink, `..`) matches nothing")
     crate = ctx.bin
     n = 0
-    for f in crate.real_fns():
+    seen_pairs = set()
+    for f0 in crate.real_fns():
+        if f0.kind not in ("fn", "method"):
+            continue
+        # inlined view: the scan (or the report) may have been extracted into a small helper of the command
+        f = ctx.inl(f0, depth=2, max_blocks=150, tag="r11e", pred=lambda g: "FixtureDatabase" not in g.id)
         scans = [(bb, c) for bb, c in f.calls() if re.search(r"::scan_workspace(_with_excludes)?$", c.get("res") or "") and c.get("res_local")]
         if not scans:
             continue
@@ -918,6 +950,9 @@ def r11e_report_root_is_scan_root(ctx):
             for i in pidx:
                 if i - 1 >= len(c["args"]):
                     continue
+                if (res, f.origin[bb] if f.origin else f.id) in seen_pairs and f.origin and f.origin[bb] != f0.id:
+                    continue
+                seen_pairs.add((res, f.origin[bb] if f.origin else f.id))
                 n += 1
                 key = "R11e|%s|%s" % (f.id, res.split("::")[-1])
                 roots = {_root(f, sc["args"][1]) for _b, sc in scans if len(sc["args"]) > 1}
